@@ -281,7 +281,7 @@ fn structured() -> impl Strategy<Value = Case> {
 
 pub fn run(tier: Tier) -> i32 {
     let mut run = Run::new("C11", tier);
-    run.assume("the structure is compared with the reference parser only when every blank in the input is ASCII space/tab/LF/CRLF (where `trimmed` is unambiguous); all other clauses are checked on every input");
+    run.assume("the structure is compared with the reference parser only when every blank in the input is ASCII space, tab, LF or CR (where `trimmed` is unambiguous; VT, FF, NEL, NBSP and the like are blanks for `str::trim` but the documentation does not say so); all other clauses are checked on every input");
     run.assume("category names are compared verbatim (the text between the brackets)");
     run.replay_regressions(&|_p, j| oracle(&case_from::<Case>(j)?.pieces.concat(), &mut Stats::default()));
     let l1 = tier.pick(6, 7) as u32;
